@@ -117,8 +117,38 @@ def rx_hit(rx, s):
     return False
 
 
+# POSIX bracket classes as the reference reads them (written from the POSIX definitions, not taken from
+# insights.util.posix_regex)
+POSIX_REF = {"alnum": "[a-zA-Z0-9]", "alpha": "[a-zA-Z]", "blank": "[ \\t]", "digit": "[0-9]", "lower": "[a-z]",
+             "space": "[ \\t\\r\\n\\v\\f]", "upper": "[A-Z]", "word": "[A-Za-z0-9_]", "xdigit": "[A-Fa-f0-9]"}
+_REF_CACHE = {}
+
+
+def ref_compile(text):
+    """the expression compiled ON ITS OWN (the per-pattern reference); None when it does not compile"""
+    if text not in _REF_CACHE:
+        t = text
+        for name, cls in POSIX_REF.items():
+            t = t.replace("[[:%s:]]" % name, cls)
+        try:
+            _REF_CACHE[text] = re.compile(t)
+        except re.error:
+            _REF_CACHE[text] = None
+    return _REF_CACHE[text]
+
+
+def pat_text(pat):
+    """the text handed to the implementation for a regular-expression pattern"""
+    return pat["re"] if "re" in pat else rx_text(pat["rx"])
+
+
 def pat_hit(pat, line):
-    return (pat["plain"] in line) if "plain" in pat else rx_hit(pat["rx"], line)
+    """does the pattern, taken by itself, match the line (independent of the implementation)"""
+    if "plain" in pat:
+        return pat["plain"] in line
+    if "rx" in pat:
+        return rx_hit(pat["rx"], line)
+    return ref_compile(pat["re"]).search(line) is not None
 
 
 def pats_of(cfg):
@@ -127,19 +157,35 @@ def pats_of(cfg):
         return []
     if "plain" in p:
         return [{"plain": k} for k in p["plain"]]
-    return [{"rx": r} for r in p["regex"]]
+    return [({"re": r["re"]} if "re" in r else {"rx": r}) for r in p["regex"]]
 
 
-def pats_proto(cfg):
+def pats_proto(cfg, lines=()):
+    """plain and family patterns are evaluated by the model; any other expression is handed over extensionally: the
+    (truncated) lines of the case on which the expression compiled on its own matches"""
     ps = pats_of(cfg)
-    return ",".join(("P" + enc(p["plain"])) if "plain" in p else rx_proto(p["rx"]) for p in ps) if ps else "-"
+    out = []
+    for p in ps:
+        if "plain" in p:
+            out.append("P" + enc(p["plain"]))
+        elif "rx" in p:
+            out.append(rx_proto(p["rx"]))
+        else:
+            M = cleaner_mod.MAX_LINE_LENGTH
+            hits = []
+            for l in lines:
+                l = l[:M]
+                if l and l not in hits and pat_hit(p, l):
+                    hits.append(l)
+            out.append("X" + "/".join(item(h) for h in hits))
+    return ",".join(out) if out else "-"
 
 
 def rm_conf_of(cfg):
     rm = {}
     p = cfg.get("patterns")
     if p:
-        rm["patterns"] = list(p["plain"]) if "plain" in p else {"regex": [rx_text(r) for r in p["regex"]]}
+        rm["patterns"] = list(p["plain"]) if "plain" in p else {"regex": [pat_text(q) for q in pats_of(cfg)]}
     if cfg.get("keywords") is not None:
         rm["keywords"] = list(cfg["keywords"])
     return rm
@@ -257,7 +303,7 @@ def proto_line(case, r):
                                                call["no_redact"], call["width"]))
     al = call["allowlist"]
     allow = "N" if al is None else (",".join("=%s:%d" % (enc(k), n) for k, n in al.items()) if al else "-")
-    fields = ["clean", mode, flags, enc(cfg["fqdn"]), items(call["no_obfuscate"] or []), pats_proto(cfg),
+    fields = ["clean", mode, flags, enc(cfg["fqdn"]), items(call["no_obfuscate"] or []), pats_proto(cfg, case["lines"]),
               items(cfg["keywords"] or []), allow, table(r.tables["ip"]), table(r.tables["host"]),
               table(r.tables["mac"]), table(r.tables["ipv6"]), str(cleaner_mod.MAX_LINE_LENGTH)]
     for l, f6 in zip(case["lines"], r.v6):
@@ -470,16 +516,59 @@ class Oracle(object):
         cov = covered_positions(text, subs)
         in_sub = lambda t: any(t in s for s in subs)
 
-        # -- exclusion patterns
+        # -- exclusion patterns: the expressions are INDEPENDENT — a line goes iff SOME configured pattern, taken by
+        # itself (plain: substring; regular expression: compiled on its own), matches the line as the Pattern stage
+        # receives it (the truncated input line; the stage runs first).  Both directions are checked: a matching
+        # line has no image in the output, a line no pattern matches keeps one (unless an allow list is in force).
         pats = pats_of(cfg)
-        if pats and not call["no_redact"] and case.get("markers"):
-            alive = set(re.findall(u"\xa7(\\d+)\xa7", text))
-            for idx, l in enumerate(lines):
-                if l and str(idx) in alive and any(pat_hit(p, l[:cleaner_mod.MAX_LINE_LENGTH]) for p in pats):
-                    self.fails.append(("pattern", "line %d %r matches an exclusion pattern and is still in the output" % (idx, l), None))
-        elif pats and not call["no_redact"]:
-            if all(l and any(pat_hit(p, l[:cleaner_mod.MAX_LINE_LENGTH]) for p in pats) for l in lines) and any(out):
+        if pats and not call["no_redact"]:
+            M = cleaner_mod.MAX_LINE_LENGTH
+            which = [[i for i, p in enumerate(pats) if pat_hit(p, l[:M])] if l[:M] else [] for l in lines]
+            hit = [bool(w) for w in which]
+            keeps = call["allowlist"] is None       # nothing but the patterns can remove a line
+            kw_empty = "keyword" not in no_obf and "" in kws_db            # '' as a keyword rewrites the markers
+            width_del = call["width"] and cfg["obfuscate"] and "ip" not in no_obf     # width mode deletes characters
+            route = call["route"]
+
+            def name(i):
+                q = pats[i]
+                return q["plain"] if "plain" in q else pat_text(q)
+            survivors = [l for l, h in zip(lines, hit) if not h]
+            if case.get("markers"):
+                alive = set(re.findall(u"\xa7(\\d+)\xa7", text))
+                for idx, l in enumerate(lines):
+                    if hit[idx] and str(idx) in alive:
+                        self.fails.append(("pattern", "line %d %r is matched by pattern %r (taken by itself, position %d of %d) and is still in the output"
+                                           % (idx, l, name(which[idx][0]), which[idx][0], len(pats)), None))
+                    elif (not hit[idx] and keeps and not kw_empty and not width_del and str(idx) not in alive
+                          and len(out) < (len(survivors) if any(survivors) else 0)):   # (a marker can be masked as a password secret)
+                        self.fails.append(("pattern-overreach", "line %d %r is matched by none of the patterns %r taken by itself, but it is not in the output %r"
+                                           % (idx, l, [name(i) for i in range(len(pats))], out), None))
+            elif route in ("content", "provider") and keeps:
+                want = len(survivors) if any(survivors) else 0
+                if len(out) > want:
+                    self.fails.append(("pattern", "%d of the lines %r are matched by none of the patterns %r taken by itself, but the output has %d lines: %r"
+                                       % (want, lines, [name(i) for i in range(len(pats))], len(out), out), None))
+                elif len(out) < want:
+                    self.fails.append(("pattern-overreach", "%d of the lines %r are matched by none of the patterns %r taken by itself, but the output has only %d lines: %r"
+                                       % (want, lines, [name(i) for i in range(len(pats))], len(out), out), None))
+            elif route == "single":
+                if hit[0] and out:
+                    self.fails.append(("pattern", "line %r is matched by pattern %r (taken by itself) and is returned: %r" % (lines[0], name(which[0][0]), out), None))
+                elif not hit[0] and keeps and not out:
+                    self.fails.append(("pattern-overreach", "line %r is matched by none of the patterns %r taken by itself, but it is dropped"
+                                       % (lines[0], [name(i) for i in range(len(pats))]), None))
+            elif all(l and h for l, h in zip(lines, hit)) and any(out):
                 self.fails.append(("pattern", "every input line matches an exclusion pattern but the output is %r" % out, None))
+            # no other stage active: the output is EXACTLY the unmatched lines, and no pattern by itself matches one of them
+            if route == "content" and keeps and set(NAMES) <= no_obf:
+                want = [l[:M] for l in survivors] if any(survivors) else []
+                if list(out) != want:
+                    self.fails.append(("pattern-exact", "patterns %r, lines %r: expected %r, got %r" % ([name(i) for i in range(len(pats))], lines, want, out), None))
+                for o in out:
+                    for i, q in enumerate(pats):
+                        if o[:M] and pat_hit(q, o[:M]):
+                            self.fails.append(("pattern", "output line %r is matched by pattern %r taken by itself" % (o, name(i)), None))
         # -- keywords
         if kws_db and "keyword" not in no_obf:
             for k in kws_db:
@@ -747,6 +836,100 @@ def g_rx(rng):
     return {"anchored": True, "atoms": [("blank", True), ("word", True)], "eol": False}
 
 
+# Expressions beyond the modelled family.  (text, where the sample must stand, samples that match, near misses)
+RICH = [
+    (r"(ab|cd)\1", "any", ["abab", "cdcd", "xcdcdx"], ["abcd", "cdab", "ab ab"]),
+    (r"([[:digit:]])-\1", "any", ["3-3", "7-7", "x0-0"], ["3-4", "3--3", "a-a"]),
+    (r"(?P<n>[[:alpha:]]+)=(?P=n)", "any", ["foo=foo", "x=x", "Key=Key"], ["foo=bar", "foo =foo", "1=1"]),
+    (r"errX[[:digit:]]+|DROP", "any", ["errX12", "DROP", "xerrX7"], ["errX", "DRO P", "errx12"]),
+    (r"^start|end$", "edge", ["start", "end"], ["xstart", "endx", " start"]),
+    (r"(?i)dropme", "any", ["DropMe", "DROPME", "dropme"], ["drop me", "dr0pme"]),
+    (r"(?i)^warn[[:space:]]", "start", ["WARN x", "Warn\tx", "warn  y"], ["warnx", "xWARN x"]),
+    (r"[[:upper:]]{2,3}[0-9]?-z", "any", ["AB-z", "ABC7-z", "xQRS-z"], ["A-z", "AB77-z", "ab-z"]),
+    (r"(a)(b)\2\1", "any", ["abba", "xabbay"], ["abab", "abb a"]),
+    (r"k[[:space:]]*=[[:space:]]*v", "any", ["k = v", "k=v", "k\t=  v"], ["k : v", "k=  w", "K=v"]),
+    (r"^[[:blank:]]*#", "start", ["# c", "  #c", "\t# x"], ["x #", "; #"]),
+    (r"(x|y)z\1|qq", "any", ["xzx", "yzy", "qq"], ["xzy", "yzx", "q q"]),
+    (r"(?P<n>[[:digit:]]{2}):(?P=n)$", "end", ["12:12", "x07:07"], ["12:13", "1:1"]),
+    (r"a.c", "any", ["abc", "a-c", "a c"], ["ac", "a\u00a4\u00a4c"]),
+    (r"(?:un)?set[[:blank:]]+([[:word:]]+)[[:blank:]]+\1", "any", ["set v v", "unset  ab ab"], ["set v w", "setvv"]),
+    (r"[[:xdigit:]]{4}(:[[:xdigit:]]{4})\1$", "end", ["beef:0001:0001", "00aa:00Aa:00Aa"], ["beef:0001:0002", "beef:0001"]),
+    (r"^(?P<n>[[:lower:]]+)[[:digit:]]*[[:blank:]].*(?P=n)$", "whole", ["node7 is node", "up x up"], ["node7 is nodes", "Up x Up"]),
+    (r"\bport[[:digit:]]\b|\bP[[:digit:]]{2}\b", "any", ["port7", "P22", "(port1)"], ["port77", "xport7", "P2"]),
+]
+SAFE_FILL = ["the", "lorem", "node", "up", "7", "ok;", "is", "(z)", "..."]
+RX_SAMPLES = ["err1", "DROP", "web", "user9", "x", "10", "Ab1", " xq z", "af:af:", "\tw", "err", "Zz9"]
+
+
+def g_rich_list(rng):
+    """2-5 INDEPENDENT expressions in random order: groups, numbered and named back-references (the same group name in
+    several expressions), un-parenthesised top-level alternation, anchors, inline flags, POSIX-looking classes,
+    quantifiers; now and then an expression of the modelled family among them"""
+    n = rng.choice([2, 2, 3, 3, 4, 5])
+    picks = rng.sample(range(len(RICH)), n)
+    out = []
+    for i in picks:
+        if rng.random() < 0.15:
+            out.append(g_rx(rng))
+        else:
+            out.append({"re": RICH[i][0], "t": i})
+    rng.shuffle(out)
+    return out
+
+
+def place(rng, frag, where, fill):
+    """(line, side on which a marker may stand)"""
+    if where == "whole":
+        return frag, None if "\n" in frag else "none"
+    if where == "start" or (where == "edge" and frag.startswith("s")):
+        return frag + " " + fill(), "end"
+    if where == "end" or where == "edge":
+        return fill() + " " + frag, "start"
+    k = rng.randrange(4)
+    return [frag, fill() + " " + frag, frag + " " + fill(), fill() + " " + frag + " " + fill()][k], "any"
+
+
+def g_rich_lines(rng, plist, fill):
+    """for every position of the list a line matched by exactly that expression (taken by itself), near misses, filler"""
+    pats = [({"re": q["re"]} if "re" in q else {"rx": q}) for q in plist]
+    lines = []
+    for i, q in enumerate(plist):
+        for _ in range(12):
+            if "re" in q:
+                t = RICH[q["t"]]
+                cand = place(rng, rng.choice(t[2]), t[1], fill)
+            else:
+                cand = place(rng, rng.choice(RX_SAMPLES), rng.choice(["any", "start", "end"]), fill)
+            if [j for j, pj in enumerate(pats) if pat_hit(pj, cand[0])] == [i]:
+                lines.append(cand)
+                break
+        if "re" in q and rng.random() < 0.75:
+            t = RICH[q["t"]]
+            lines.append(place(rng, rng.choice(t[3]), t[1], fill))
+    if rng.random() < 0.6:
+        lines.append((fill() + " " + fill(), "any"))
+    if rng.random() < 0.15:
+        lines.append(("", "none"))
+    rng.shuffle(lines)
+    return lines[:10]
+
+
+def g_rxlist_case(rng):
+    """the exclusion list alone: no other stage runs, the output must be exactly the unmatched lines"""
+    plist = g_rich_list(rng)
+    cfg = {"obfuscate": False, "hostname": False, "mac": False, "ipv6": False, "fqdn": "web1.abc.com",
+           "keywords": None, "patterns": {"regex": plist}}
+    route = "content" if rng.random() < 0.85 else "single"
+    call = {"no_obfuscate": list(NAMES), "no_redact": False, "allowlist": None, "width": False, "route": route}
+    fill = lambda: rng.choice(SAFE_FILL)
+    lines = [l for l, _ in g_rich_lines(rng, plist, fill)] or ["lorem"]
+    if route == "single":
+        lines = [rng.choice(lines)]
+    elif rng.random() < 0.3:
+        lines = [l + "\n" for l in lines]
+    return {"cfg": cfg, "call": call, "lines": lines, "markers": False}
+
+
 def g_case(rng, width_ok=True):
     fqdn = g_fqdn(rng)
     obf = rng.random() < 0.8
@@ -761,11 +944,15 @@ def g_case(rng, width_ok=True):
     elif k == 5:
         cfg["keywords"] = []
     k = rng.randrange(10)
+    rich = None
     if k < 3:
         cfg["patterns"] = {"plain": [rng.choice(PLAIN_PATS) for _ in range(rng.choice([1, 1, 2, 3]))]}
-    elif k < 6:
-        cfg["patterns"] = {"regex": [g_rx(rng) for _ in range(rng.choice([1, 1, 2]))]}
-    elif k == 6:
+    elif k < 5:
+        cfg["patterns"] = {"regex": [g_rx(rng) for _ in range(rng.choice([1, 1, 2, 3]))]}
+    elif k < 7:
+        rich = g_rich_list(rng)
+        cfg["patterns"] = {"regex": rich}
+    elif k == 7:
         cfg["patterns"] = {"plain": []}
     route = rng.choice(["content", "content", "content", "single", "file", "provider"])
     k = rng.randrange(10)
@@ -786,17 +973,35 @@ def g_case(rng, width_ok=True):
     if route in ("content", "single", "file") and rng.random() < 0.2:
         call["allowlist"] = dict((rng.choice(WORDS + ["1", "a", ":"]), rng.choice([1, 1, 2, 5])) for _ in range(rng.choice([0, 1, 2, 3])))
     kws = cfg["keywords"] or []
-    nl = 1 if route == "single" else rng.choice([1, 1, 2, 3, 4, 6])
-    markers = route != "single" and rng.random() < 0.6
+    if rich is not None:
+        # lines built around the expressions of the list; the rest of each line is ordinary cleaner material
+        fill = lambda: g_line(rng, cfg, kws) if rng.random() < 0.5 else rng.choice(SAFE_FILL)
+        sided = g_rich_lines(rng, rich, fill) or [("lorem", "any")]
+        if route == "single":
+            sided = [rng.choice(sided)]
+        markers = route not in ("single", "file")
+    else:
+        nl = 1 if route == "single" else rng.choice([1, 1, 2, 3, 4, 6])
+        sided = []
+        for i in range(nl):
+            l = g_line(rng, cfg, kws)
+            if rng.random() < 0.06:
+                l = rng.choice(["", " ", "\t"])
+            sided.append((l, "any"))
+        markers = route != "single" and rng.random() < 0.6
     lines = []
-    for i in range(nl):
-        l = g_line(rng, cfg, kws)
-        if rng.random() < 0.06:
-            l = rng.choice(["", " ", "\t"])
+    for i, (l, side) in enumerate(sided):
         if markers:
             m = u"\xa7%d\xa7" % i
-            l = (m + " " + l) if rng.random() < 0.5 else (l + " " + m)
+            if side == "none" or side is None:
+                pass                      # the line must stay exactly as it is (empty line, whole-line expression)
+            elif side == "start" or (side == "any" and rng.random() < 0.5):
+                l = m + " " + l
+            else:
+                l = l + " " + m
         lines.append(l)
+    if markers and rich is not None and any(side in ("none", None) for _, side in sided):
+        markers = False                   # a line without marker: images are identified by counting instead
     if route == "file":
         lines = [l.encode("ascii", "replace").decode("ascii").replace("\r", " ") for l in lines]
         markers = False
@@ -939,6 +1144,20 @@ def classify(case, r):
         tags.append("no_obfuscate:%d" % len(call["no_obfuscate"]))
     p = cfg.get("patterns")
     tags.append("patterns:" + ("none" if not p else "plain" if "plain" in p else "regex"))
+    if p and "regex" in p and any("re" in q for q in p["regex"]):
+        pats = pats_of(cfg)
+        M = cleaner_mod.MAX_LINE_LENGTH
+        tags.append("rxlist:len:%d" % len(pats))
+        which = [[i for i, q in enumerate(pats) if pat_hit(q, l[:M])] if l[:M] else [] for l in case["lines"]]
+        for i in range(len(pats)):
+            if [i] in which:
+                tags.append("rxlist:line-matched-only-by:pos%d" % i)
+        tags.append("rxlist:lines-matched-by-none:%d" % min(sum(1 for w, l in zip(which, case["lines"]) if not w and l), 4))
+        txt = " ".join(pat_text(q) for q in pats)
+        for feat, mark in (("backref", "\\1"), ("named-group", "(?P<"), ("alternation", "|"), ("inline-flag", "(?i)"),
+                           ("posix-class", "[[:"), ("anchor", "^"), ("quantifier", "{")):
+            if mark in txt:
+                tags.append("rxlist:feature:" + feat)
     tags.append("keywords:%d" % len(cfg["keywords"] or []))
     for t in ("ip", "host", "mac", "ipv6"):
         if r.tables[t]:
@@ -982,6 +1201,46 @@ def run_cases(chk, cases, stream):
     return runs_, model
 
 
+BAD_PATTERNS = ["(", "[a", "*x", "a(?i)b", "(?P<n>a)(?P<n>b)", "\\1", "(?P=zz)x", "x{2,1}", "(?<n>a)", "a)"]
+GOOD_PATTERNS = ["DROP[[:digit:]]", "(ab|cd)\\1", "(?i)^warn"]
+PROBE_LINE = "lorem ipsum 7"          # matched by no good pattern: every pattern of a list is evaluated on it
+
+
+def behaviour(patterns, line=PROBE_LINE):
+    """what the implementation does with this exclusion list on a line: raises / keeps / drops"""
+    try:
+        c = Cleaner(InsightsConfig(obfuscate=False), {"patterns": {"regex": list(patterns)}}, "h.example.org")
+        got = c.clean_content(line, no_obfuscate=list(NAMES))
+        return "dropped" if got is None else "kept"
+    except Exception as e:
+        return "raises:" + type(e).__name__
+
+
+def uncompilable_stream(chk):
+    """patterns that do not compile on their own: whatever the implementation does with one alone (raise / ignore),
+    it must do the same when the pattern stands inside a list — before, between and after valid ones"""
+    rec, n, bad = [], 0, 0
+    for pat in BAD_PATTERNS:
+        if ref_compile(pat) is not None:
+            rec.append({"pattern": pat, "note": "compiles in this interpreter; not part of the stream"})
+            continue
+        alone = behaviour([pat])
+        lists = [[GOOD_PATTERNS[0], pat], [pat, GOOD_PATTERNS[1]], [GOOD_PATTERNS[2], pat, GOOD_PATTERNS[0]],
+                 [GOOD_PATTERNS[1], GOOD_PATTERNS[0], pat]]
+        inside = [behaviour(l) for l in lists]
+        rec.append({"pattern": pat, "alone": alone, "inside_lists": inside})
+        for l, b in zip(lists, inside):
+            n += 1
+            chk.case(("rxbad", tuple(l)), nontrivial=True)
+            chk.count("rx-uncompilable:" + alone)
+            if b != alone:
+                bad += 1
+                chk.failure("uncompilable pattern %r: alone the implementation %s, inside the list %r it %s" % (pat, alone, l, b),
+                            {"op": "rxbad", "pattern": pat, "list": l})
+    chk.stream("rx:uncompilable-alone-vs-in-list", n, bad)
+    chk.extra["uncompilable_patterns"] = rec
+
+
 OUTSIDE_NOTATIONS = ["password='hunter2'", "Password=hunter2", "password={hunter2}", "PASSWORD: hunter2", "passwd=hunter2"]
 
 
@@ -1000,7 +1259,11 @@ def run(chk):
         "character classes \\w, \\s exact below U+0250 (checked exhaustively per run); text beyond is refused by the driver and not generated",
         "substitute generation (address numbering, SHA-1 names) is a table parameter read from the obfuscators' mapping() (property C09)",
         "IPv6 recogniser is a parameter of the model (property does not claim IPv6); width-preserving IPv4 mode is tied by correspondence only",
-        "regular-expression exclusion lists: theorem for an arbitrary matcher; correspondence for the family ^? (class|literal)+? $? with POSIX bracket classes",
+        "regular-expression exclusion lists: theorem for an arbitrary matcher; the model evaluates the family ^? (class|literal)+? $? with POSIX bracket classes itself; "
+        "for any other expression (groups, back-references, named groups, top-level alternation, inline flags, quantifiers) regex semantics is outside the model: "
+        "the model receives, per pattern, the lines on which the expression COMPILED ON ITS OWN by the harness's reference (Python re + an independent POSIX table) matches — "
+        "so the independence of the patterns of a list (a line goes iff some pattern taken by itself matches; both directions) is decided by the oracle and by the correspondence "
+        "to this per-pattern reference (streams clean, clean:rxlist), not by a Lean theorem about regular expressions",
     ]
     chk.lean()
     recogniser_streams(chk, n_rec)
@@ -1028,6 +1291,16 @@ def run(chk):
             for c, r in list(zip(cases, runs_))[:4]:
                 chk.sample({"cfg": c["cfg"], "call": c["call"], "lines": c["lines"], "impl": r.out.split("\t")[0],
                             "cleaned": r.lines_out})
+
+    # ---- exclusion lists of several independent regular expressions, no other stage running
+    rl = []
+    while len(rl) < (1500 if quick else 20000):
+        c = g_rxlist_case(chk.rng)
+        if in_domain(c):
+            rl.append(c)
+    run_cases(chk, rl, "clean:rxlist")
+    chk.sample({"patterns": [pat_text(q) for q in pats_of(rl[0]["cfg"])], "lines": rl[0]["lines"]})
+    uncompilable_stream(chk)
 
     # ---- truncation: MAX_LINE_LENGTH lowered for a few cases (module constant read at call time)
     saved = cleaner_mod.MAX_LINE_LENGTH
@@ -1126,7 +1399,11 @@ def replay(data):
         return 1 if bad else 0
     c = data["case"]
     print("replaying", json.dumps(c, ensure_ascii=False)[:3000])
-    if c.get("op") == "rx":
+    if c.get("op") == "rxbad":
+        alone, inside = behaviour([c["pattern"]]), behaviour(c["list"])
+        print("pattern %r alone: %s; inside %r: %s" % (c["pattern"], alone, c["list"], inside))
+        bad = alone != inside
+    elif c.get("op") == "rx":
         rx, s = c["rx"], c["line"]
         cl = Cleaner(InsightsConfig(obfuscate=False), {"patterns": {"regex": [rx_text(rx)]}}, "h.example.org")
         got = cl.clean_content(s, no_obfuscate=list(NAMES))
